@@ -727,6 +727,40 @@ func (r *run) atomCaught(T *Node, signer neotest.SingleSigner, extra []*transact
 		xs, ys = entry(dyn(1+ap.Pieces[0].Y%2)), entry(dyn(0))
 		r.out.Faults["caught_exception/in-dynamic-script"]++
 	}
+	manyCaught := !nested && ap.Pieces[0].A%6 == 4
+	if manyCaught {
+		// hundreds of exceptions thrown one CALL frame deep (a function with nine local slots) and caught by the caller in
+		// a loop, then a notification; the twin does the same once. Whatever the VM keeps per frame has to be given back
+		// when a frame is unwound: both halt with the same events
+		loopScript := func(n int) []byte {
+			w := nio.NewBufBinWriter()
+			emit.Instruction(w.BinWriter, opcode.INITSLOT, []byte{1, 0})
+			emit.Opcodes(w.BinWriter, opcode.PUSH0, opcode.STLOC0)
+			tail := nio.NewBufBinWriter()
+			emit.AppCall(tail.BinWriter, k0, "ev", callflag.All, []byte("after"))
+			emit.Opcodes(tail.BinWriter, opcode.RET)
+			// 5: TRY  8: CALL f  10: ENDTRY->15  12: DROP  13: ENDTRY->15  15: LDLOC0 INC STLOC0 LDLOC0 PUSHINT16 n LT  23: JMPIF 5  25: tail  f
+			fpos := 25 + tail.Len()
+			emit.Instruction(w.BinWriter, opcode.TRY, []byte{7, 0})
+			emit.Instruction(w.BinWriter, opcode.CALL, []byte{byte(fpos - 8)})
+			emit.Instruction(w.BinWriter, opcode.ENDTRY, []byte{5})
+			emit.Opcodes(w.BinWriter, opcode.DROP)
+			emit.Instruction(w.BinWriter, opcode.ENDTRY, []byte{2})
+			emit.Opcodes(w.BinWriter, opcode.LDLOC0, opcode.INC, opcode.STLOC0, opcode.LDLOC0)
+			emit.Instruction(w.BinWriter, opcode.PUSHINT16, []byte{byte(n), byte(n >> 8)})
+			emit.Opcodes(w.BinWriter, opcode.LT)
+			emit.Instruction(w.BinWriter, opcode.JMPIF, []byte{byte(0x100 - 18)})
+			w.WriteBytes(tail.Bytes())
+			emit.Instruction(w.BinWriter, opcode.INITSLOT, []byte{9, 0})
+			emit.Opcodes(w.BinWriter, opcode.PUSH1, opcode.THROW)
+			if fpos-8 > 120 {
+				sim.Harnessf("loop script too long")
+			}
+			return w.Bytes()
+		}
+		xs, ys = loopScript(250+ap.Pieces[0].X*7), loopScript(1)
+		r.out.Faults["caught_exception/hundreds-in-a-loop"]++
+	}
 	sys := int64(30_00000000)
 	r.prod.nonce++
 	x := r.rawTx(r.P, xs, signer, sys, atomNetFee, r.prod.nonce)
@@ -735,6 +769,10 @@ func (r *run) atomCaught(T *Node, signer neotest.SingleSigner, extra []*transact
 	r.out.Faults[fmt.Sprintf("caught_exception/depth%d", ap.Depth)]++
 	ax, ay, ok := r.twinBlocks(T, x, y, extra, fmt.Sprintf("caught@depth%d effects=%d", ap.Depth, len(effects)), false)
 	if !ok || r.fail != nil {
+		return
+	}
+	if manyCaught && ay.VMState == vmstate.Halt && ax.VMState != vmstate.Halt {
+		r.violate(sim.Violatef("atom-caught-fault", "", "a script that catches %d exceptions thrown by a called function in a loop ends as %s (%s); the same script with one round halts", 250+ap.Pieces[0].X*7, ax.VMState, ax.FaultException))
 		return
 	}
 	if ax.VMState != vmstate.Halt || ay.VMState != vmstate.Halt {
